@@ -584,17 +584,32 @@ theorem ext_updatePersisted (cfg : Cfg St Upd) (sc : Sched) (w : World St Upd) (
       exact (updatePersisted_full_spec cfg sc w name (some (uid, u)) m (by
         intro a b h; injection h with h; injection h with h3 _; subst h3; exact h2)).1
 
+theorem clean_readMonOnly (cfg : Cfg St Upd) (sc : Sched) (w : World St Upd) (name : String) :
+    Clean w (readMonOnly cfg sc w name).1 := by
+  unfold readMonOnly
+  split
+  · exact Clean.refl w
+  · simp only
+    split <;> exact clean_kRead sc w (monKey name)
+
+theorem clean_archiveRead (cfg : Cfg St Upd) (sc : Sched) (w : World St Upd) (name : String) :
+    Clean w (archiveRead cfg sc w name).1 := by
+  unfold archiveRead
+  split
+  · exact clean_readWithUpdates cfg sc w name
+  · exact clean_readMonOnly cfg sc w name
+
 theorem ext_archive (cfg : Cfg St Upd) (sc : Sched) (w : World St Upd) (name : String) :
     Ext w (archive cfg sc w name) := by
   unfold archive
-  have h1 := (clean_readWithUpdates cfg sc w name).ext
+  have h1 := (clean_archiveRead cfg sc w name).ext
   dsimp only
   split
   · exact h1
   · rename_i m _
-    have h2 := h1.trans (ext_kWrite sc (readWithUpdates cfg sc w name).1 (archKey name) (.mon false name m))
+    have h2 := h1.trans (ext_kWrite sc (archiveRead cfg sc w name).1 (archKey name) (.mon false name m))
     split
-    · exact h2.trans (ext_kRemove_mon sc _ name true)
+    · exact h2.trans (ext_kRemove_mon sc _ name _)
     · exact h2
 
 theorem ext_stepEv (cfg : Cfg St Upd) (sc : Sched) (name : String) (r : Run St Upd) (ev : Ev Upd) :
